@@ -418,6 +418,7 @@ Verdict prop(Tape& t, Run& run) {
 		c.nif.Create(versions()[vi].ni());
 		GenShapeOpts o;
 		o.mesh.maxVerts = 120;
+		o.mesh.minTris = t.chance(32) ? 0 : 5;
 		g = buildGenShape(c.nif, t, vi, "Shape", o);
 		if (!g.shape) {
 			run.exclude("shape construction returned null");
